@@ -2,7 +2,8 @@
    input  : SEQ  P <n> <entry>*n O <m> <op>*m
             CONC P <n> <entry>*n O <m> <mutop>*m
      entry: <kind> <codeI> <codeO> <inst> <beh> <nm> <mop>*nm
-            kind fi fo t ti to pi po bad ; beh P S E A F
+            kind fi fo t ti to pi po bad ; beh P S E A F K
+            a call whose context is done carries the marker 9001 / 9002 as its first token
      mop  : U|X c|s <k> <ix>*k          op : mop | C <k> <tok>*k
    output : SEQ  : outcome of each op joined by " | ", then
                    " || final CI=.. CO=.. SO=.. SI=.. || lists CI=.. .. || specagree=<bool>"
@@ -14,7 +15,7 @@ let sn n = string_of_int (int_of_n n)
 
 let beh_of = function
   | "P" -> Onion.BPass | "S" -> Onion.BShortOk | "E" -> Onion.BShortErr
-  | "A" -> Onion.BAlter | "F" -> Onion.BErrAfter | s -> failwith ("beh " ^ s)
+  | "A" -> Onion.BAlter | "F" -> Onion.BErrAfter | "K" -> Onion.BCancel | s -> failwith ("beh " ^ s)
 
 let node_of = function "c" -> Onion.NClient | "s" -> Onion.NService | s -> failwith ("node " ^ s)
 
